@@ -39,8 +39,10 @@ CLAIM_TEXT = {
             'field parsers (K2).', '4 V4 V5 V6 V7 K2 K3'),
     'C14': ('serde span bridge delivers (start, end, value) unswapped for every span and value (Kani, loop-free, complete).',
             '4 K11'),
-    'C15': ('translate_position == (line, char column) spec with clamping, for every valid UTF-8 input up to the stated '
-            'length and every index (Kani, bounded).', '4 K8'),
+    'C15': ('Display for TomlError never panics and prints line + 1 / column + 1 of the span start with the caret under that '
+            'column, for every error value (Verus V10, unbounded, UNDER the contract of translate_position); '
+            'translate_position == (line, char column) spec with clamping is itself only checked for every valid UTF-8 input up '
+            'to the stated length and every index (Kani K8, bounded: the proof level covers the rendering, not the position).', '4 V10, K8'),
 }
 
 NOTE = {
@@ -55,7 +57,10 @@ NOTE = {
            'formatting, trim_end_matches, parse::<u32>; composition of the document grammar date_time production and the '
            'serde date-time tunnel not decided.',
     'C14': 'span production inside the parser and despan are tree-level and not decided.',
-    'C15': 'bounded input length; rest of Display for TomlError goes through core::fmt and is not decided.',
+    'C15': 'translate_position: bounded input length (K8), its contract is assumed by V10; core::fmt effects of write!, usize '
+           'Display, str::split/nth, [String]::join are assumed contracts; TomlError invariant (span ordered, inside the '
+           'stored source) assumed of the constructors; message non-empty, span on character boundaries and the serde-side '
+           'clauses are not decided.',
 }
 
 NOT_APPLICABLE = [
